@@ -267,7 +267,9 @@ Definition expected_skeleton : list string :=
       auditCh in startSpotlights made a prompter still running after a
       spotlight failure panic with "send on closed channel": fixed in 27a1a66.) *)
    "closes: actor.runActorCommandWithConsumer:readerDone; app.close:endCh; app.runConduct:errChan; audition.startAudition:errCh; collectErrors:errCh; collector.startCollector:errCh; prompter.startPrompter:errCh; prompter.startPrompter:termCh; runReaderAsync:lines; spotMgr.startSpotlights:errCh";
-   "senders: auditCh <- prompter.reportMoodEvent, prompter.signalActChange, spotMgr.detectSignals, spotMgr.signalAuditTermination; collCh <- audition.collectEvent, audition.sendCollectorEvent, audition.signalCollectorTermination, prompter.reportCollectorEvent"].
+   "senders: auditCh <- prompter.reportMoodEvent, prompter.signalActChange, spotMgr.detectSignals, spotMgr.signalAuditTermination; collCh <- audition.collectEvent, audition.sendCollectorEvent, audition.signalCollectorTermination, prompter.reportCollectorEvent";
+   (* the registry mutex is the one in the shared registry, never a copy *)
+   "methods locking a copy (value receiver on a type holding a mutex): "].
 
 (** the only pointer to a cell the protocol allows *)
 Definition expected_aliases : list (string * string) :=
